@@ -404,4 +404,62 @@ theorem release_before_copy_unowned (cxx : Option Buf) (cvar : Buf) (elemLen cva
 
 example : copyStringRun [.fetchPtr, .initN, .clampN, .release, .copy] (some [97, 0]) true 1 [120] 1 = .oob := by decide
 
+/-! ## assembly order of the C wrapper body and user `final:` clauses -/
+
+/-- the order observed on the output of `Wrapc.wrap_function`: copy-out before the user's final
+    clause, the `return` last -/
+theorem wrapOrder_eq : Gen.wrapOrder = [.preCall, .call, .postCall, .final, .ret] := by decide
+
+/-- for EVERY regenerated entry: in the assembled body no template line reads the storage of the
+    result after a user `final:` clause released it -/
+theorem reads_precede_final :
+    ∀ p ∈ Gen.entries, noReadAfterRelease (linearize p.2 [.userRelease] Gen.wrapOrder) = true := by decide
+
+/-- the idiom `fstatements: c_buf: final: delete {cxx_var};` on a `const std::string *` result
+    copied into `character(len=L)` (and its CFI variant): the text is copied out first, then the
+    string is released, once -/
+theorem flow_string_result_final_delete (t s : Buf) (h32 : s.length < 2147483648) :
+    flowWith Gen.wrapOrder Gen.c_string_ptr_result_buf [.userRelease] false false t (.strResult s)
+      = .ok (⟨none, none, fassign t.length s, 0, false⟩, 1) ∧
+    flowWith Gen.wrapOrder Gen.c_string_ptr_result_cfi [.userRelease] true false t (.strResult s)
+      = .ok (⟨none, none, fassign t.length s, 0, false⟩, 1) := by
+  have hc := strCopy_std t s h32
+  have hn := strCopy_null t [] 0
+  simp only [List.append_nil] at hn
+  cases s with
+  | nil =>
+    constructor
+    · simp [Gen.wrapOrder, Gen.c_string_ptr_result_buf, flowWith, runGroups, init, run, step, exec, call, finish, active,
+        natLen, needCvar, hn, fassign]
+    · simp [Gen.wrapOrder, Gen.c_string_ptr_result_cfi, flowWith, runGroups, init, run, step, exec, call, finish, active,
+        natLen, needCvar, hn, fassign]
+  | cons x xs =>
+    constructor
+    · simp [Gen.wrapOrder, Gen.c_string_ptr_result_buf, flowWith, runGroups, init, run, step, exec, call, finish, active,
+        natLen, needCvar, hc]
+    · simp [Gen.wrapOrder, Gen.c_string_ptr_result_cfi, flowWith, runGroups, init, run, step, exec, call, finish, active,
+        natLen, needCvar, hc]
+
+/-- the same for a `const char *` result released with `free` -/
+theorem flow_char_result_final_free (t s : Buf) (h0 : ∀ c ∈ s, c ≠ NUL) (h32 : s.length < 2147483648) :
+    flowWith Gen.wrapOrder Gen.c_char_ptr_result_buf [.userRelease] false false t (.charResult (some s))
+      = .ok (⟨none, none, fassign t.length s, 0, false⟩, 1) := by
+  have hc := strCopy_cstring t [] s [] h0 h32
+  simp only [List.append_nil] at hc
+  simp [Gen.wrapOrder, Gen.c_char_ptr_result_buf, flowWith, runGroups, init, run, step, exec, call, finish, active,
+    natLen, needCvar, hc]
+
+example : flowWith Gen.wrapOrder Gen.c_string_ptr_result_buf [.userRelease] false false [120, 120, 120] (.strResult [97])
+    = .ok (⟨none, none, [97, 32, 32], 0, false⟩, 1) := by decide
+
+/-- witness that the order matters: with the final clause assembled before the copy-out, every
+    result is read after its release, whatever the variable and the text -/
+theorem final_before_post_uaf (t s : Buf) :
+    flowWith [.preCall, .call, .final, .postCall, .ret] Gen.c_string_ptr_result_buf [.userRelease] false false t
+      (.strResult s) = .oob := by
+  simp [Gen.c_string_ptr_result_buf, flowWith, runGroups, init, run, step, exec, call, active]
+
+example : noReadAfterRelease (linearize Gen.c_string_ptr_result_buf [.userRelease] [.preCall, .call, .final, .postCall, .ret])
+    = false := by decide
+
 end Shroud.StrStmts
